@@ -454,7 +454,7 @@ struct Value {
             fprintf(stderr, "cannot base58-decode non-string value\n");
             return;
         }
-        if (!DecodeBase58(str, data, 200)) {
+        if (!DecodeBase58(str, data, 10000)) {
             fprintf(stderr, "decode failed\n");
         }
         type = T_DATA;
@@ -469,7 +469,7 @@ struct Value {
             fprintf(stderr, "cannot base58-decode non-string value\n");
             return;
         }
-        if (!DecodeBase58Check(str, data, 200)) {
+        if (!DecodeBase58Check(str, data, 10000)) {
             fprintf(stderr, "decode failed\n");
         }
         type = T_DATA;
